@@ -4,7 +4,8 @@ import shapes, nslgen, gentyped, vmcases, ircoq
 from common import TranslatorAbort, coq_list
 from nslgen import *
 
-STATIC = ["Model/IR.v", "Model/VM.v", "Model/PyTree.v", "Proofs/HistoryProofs.v", "Spec/RefSem.v", "Proofs/HistoryRefineProofs.v", "Proofs/HistoryExample.v", "Harness/HistLib.v"]
+STATIC = ["Model/IR.v", "Model/VM.v", "Model/PyTree.v", "Proofs/HistoryProofs.v", "Spec/RefSem.v", "Proofs/HistoryRefineProofs.v", "Proofs/HistoryExample.v", "Harness/HistLib.v",
+          "Proofs/HistoryFlowProofs.v", "Proofs/HistoryFlowExample.v", "Harness/HistLib2.v"]
 
 
 def aggregate_programs():
@@ -52,6 +53,18 @@ def recursive_program():
     return ("recursion", m)
 
 
+def vector_global_program():
+    """vector-valued globals copied to another global and to locals, then assigned again: a copy keeps the old value"""
+    vec = lambda a: Ctor("float4", [a, B("+", a, F("1.0")), B("+", a, F("2.0")), B("+", a, F("3.0"))])
+    m = Module([Global("float4", "g"), Global("float4", "h"), Global("float", "acc"),
+                Func("setg", [Arg("float", "a")], "float", Block([ES(A(V("g"), vec(V("a")))), Ret(Idx(V("g"), I(0)))]), export=True),
+                Func("copy", [], "float", Block([ES(A(V("h"), V("g"))), Ret(Idx(V("h"), I(1)))]), export=True),
+                Func("swap", [Arg("float", "a")], "float",
+                     Block([Decl("float4", "t", V("g")), ES(A(V("g"), vec(V("a")))), ES(A(V("acc"), B("+", V("acc"), Idx(V("t"), I(0))))), ES(A(V("h"), V("t"))), Ret(Idx(V("t"), I(2)))]), export=True),
+                Func("read", [Arg("int", "i")], "float", Block([Ret(B("+", Idx(V("g"), V("i")), B("*", F("10.0"), Idx(V("h"), V("i")))))]), export=True)])
+    return ("global-vector", m)
+
+
 def run(ctx):
     ctx.static_obligations(STATIC)
     repo = ctx.sync_repo(1)[0]
@@ -91,6 +104,18 @@ def run(ctx):
             else:
                 calls.append({"vm": vm, "fn": "count", "args": {"i": 1}, "globals": {"hist": [rng.randrange(5) for _ in range(3)]}, "read_globals": ["hist"]})
         cases.append((name, m, calls))
+    name, m = vector_global_program()
+    for rep in range(3 if ctx.tier == "quick" else 12):
+        calls = [{"vm": v, "fn": "read", "args": {"i": 0}, "globals": {"g": [1.0 + v, 2.0, 3.0, 4.0], "h": [0.0, 0.0, 0.0, 0.5], "acc": 0.0}, "read_globals": ["g", "h", "acc"]} for v in (0, 1)]
+        for _ in range(rng.randint(*hist_len)):
+            vm = rng.choice([0, 0, 1])
+            fnm = rng.choice(["setg", "copy", "swap", "read", "setg"])
+            args = {"a": rng.choice([0.5, 2.0, -1.25, 7.0])} if fnm in ("setg", "swap") else ({"i": rng.randrange(4)} if fnm == "read" else {})
+            c = {"vm": vm, "fn": fnm, "args": args, "globals": {}, "read_globals": ["g", "h", "acc"]}
+            if rng.random() < 0.1:
+                c["globals"] = {"g": [rng.choice([0.25, 9.0]) for _ in range(4)]}
+            calls.append(c)
+        cases.append((name, m, calls))
     name, m = recursive_program()
     for rep in range(4 if ctx.tier == "quick" else 16):
         calls = [{"vm": v, "fn": "add", "args": {"n": 0}, "globals": {"total": 0, "calls": 0}, "read_globals": ["total", "calls"]} for v in (0, 1)]
@@ -118,6 +143,18 @@ def run(ctx):
                 c["globals"] = {"g0": rng.randrange(-3, 4)}
             calls.append(c)
         cases.append(("straight-line", m, calls))
+    # programs of functions with nested conditionals over two globals: the fragment of the history refinement theorem for conditionals
+    for (m, cl, text) in c01.conditional_programs(ctx, 20 if ctx.tier == "quick" else 400):
+        fname, params = [(it["n"], it["args"]) for it in m["items"] if it["k"] == "func"][0]
+        calls = [{"vm": vmid, "fn": fname, "args": {a_["n"]: (1 if a_["t"] == "int" else 0.5) for a_ in params}, "globals": {"g0": rng.randrange(-3, 4), "g1": rng.choice([0.5, 1.25])}, "read_globals": ["g0", "g1"]}
+                 for vmid in (0, 1)]
+        for _ in range(rng.randint(*hist_len)):
+            c = {"vm": rng.choice([0, 0, 1]), "fn": fname, "args": {a_["n"]: (rng.randrange(-6, 9) if a_["t"] == "int" else rng.choice([0.5, -1.25, 3.0, 0.1, 7.5])) for a_ in params},
+                 "globals": {}, "read_globals": ["g0", "g1"]}
+            if rng.random() < 0.1:
+                c["globals"] = {"g0": rng.randrange(-3, 4)}
+            calls.append(c)
+        cases.append(("conditionals", m, calls))
     for k in range(40 if ctx.tier == "quick" else 1200):
         g = gentyped.TGen(rng, floats=True, arrays=True, structs=(k % 2 == 0), calls=(k % 3 == 0), max_depth=2)
         m, exported, globs = g.module()
@@ -155,15 +192,23 @@ def run(ctx):
         expr = "run_case_vms fuel M_%d P_%d %s %s" % (k, k, cs, coq_list(obs))
         if name == "straight-line":
             expr = "(%s + 1000 * hist_case M_%d)" % (expr, k)
+        elif name == "conditionals":
+            expr = "(%s + 1000 * (100000 + hist_case2 M_%d))" % (expr, k)
         blocks.append((defs, expr)); meta.append((name, j["src"], calls, r))
     files = vmcases.write_case_files(ctx, "C15", blocks, per=6)
     outs = ctx.eval_cases(files, timeout=900)
     codes = vmcases.collect_codes(ctx, files, outs, len(blocks), per=6)
     hfrag = {"programs": 0, "programs_inside_proved_fragment": 0, "exported_functions": 0, "functions_passing_the_test": 0}
+    cfrag = {"programs": 0, "programs_inside_proved_fragment": 0, "exported_functions": 0, "functions_passing_the_test": 0}
     for n_, c in enumerate(codes):
         if c is not None and c >= 1000:
             hc = c // 1000
             codes[n_] = c % 1000
+            if hc >= 100000:
+                hc -= 100000
+                cfrag["programs"] += 1; cfrag["programs_inside_proved_fragment"] += 1 if hc >= 10000 else 0
+                cfrag["exported_functions"] += (hc % 10000) // 100; cfrag["functions_passing_the_test"] += hc % 100
+                continue
             hfrag["programs"] += 1; hfrag["programs_inside_proved_fragment"] += 1 if hc >= 10000 else 0
             hfrag["exported_functions"] += (hc % 10000) // 100; hfrag["functions_passing_the_test"] += hc % 100
     bad_spec = [x for x, c in zip(meta, codes) if c is not None and c & 2]
@@ -177,7 +222,7 @@ def run(ctx):
                        "structs) updated in place and accumulated into globals, a program keeping an array and counters in globals, a program of recursive functions that keep an argument, a local and a local array alive across the recursive call, programs of straight-line functions over two globals (the fragment of the history refinement theorem; its decidable hypotheses are tested inside Coq per program), and random programs of the C01 generator; observations "
                        "compared step by step inside Coq with per-VM states of the heap VM model and of the reference state machine. Non-trivial: every history; distinct by content." % hist_len)
     ctx.cov["samples"] = [{"program": n, "history_prefix": c[:4], "impl_prefix": r["calls"][:4]} for n, t, c, r in meta[:2]]
-    ctx.extra["input_distribution"] = {"straight_line_programs": hfrag, "histories": len(cases), "operations": nops, "spec_skipped": sum(1 for c in codes if c is not None and c & 8), "model_skipped": sum(1 for c in codes if c is not None and c & 4)}
+    ctx.extra["input_distribution"] = {"straight_line_programs": hfrag, "conditional_programs": cfrag, "histories": len(cases), "operations": nops, "spec_skipped": sum(1 for c in codes if c is not None and c & 8), "model_skipped": sum(1 for c in codes if c is not None and c & 4)}
     ctx.extra["disagreements_checked"] = len(codes)
     if bad_spec or direct_bad:
         if bad_spec:
